@@ -42,9 +42,13 @@ package network
 //@   modifies simpleHTTPSelf
 //@   requires simpleHTTPSelf != nil
 //@   ensures appended: len(simpleHTTPSelf.interceptors) == old(len(simpleHTTPSelf.interceptors)) + len(interceptors)
+//@   ensures old-ones-first-in-order: forall(k, 0, old(len(simpleHTTPSelf.interceptors)), simpleHTTPSelf.interceptors[k] == oldheap(old(simpleHTTPSelf.interceptors)[k]))
+//@   ensures new-ones-after-in-order: forall(j, 0, len(interceptors), simpleHTTPSelf.interceptors[old(len(simpleHTTPSelf.interceptors))+j] == interceptors[j])
 //@   ensures others: simpleHTTPSelf.clientTransport == old(simpleHTTPSelf.clientTransport) && simpleHTTPSelf.lastTransport == old(simpleHTTPSelf.lastTransport) && simpleHTTPSelf.client == old(simpleHTTPSelf.client)
 //@ func (SimpleHTTPDef).AddInterceptor loop 0
 //@   invariant sofar: len(simpleHTTPSelf.interceptors) == old(len(simpleHTTPSelf.interceptors)) + _i
+//@   invariant old-ones: forall(k, 0, old(len(simpleHTTPSelf.interceptors)), simpleHTTPSelf.interceptors[k] == oldheap(old(simpleHTTPSelf.interceptors)[k]))
+//@   invariant new-ones: forall(j, 0, _i, simpleHTTPSelf.interceptors[old(len(simpleHTTPSelf.interceptors))+j] == interceptors[j])
 //@   invariant others: simpleHTTPSelf.clientTransport == old(simpleHTTPSelf.clientTransport) && simpleHTTPSelf.lastTransport == old(simpleHTTPSelf.lastTransport) && simpleHTTPSelf.client == old(simpleHTTPSelf.client)
 
 //@ func (SimpleHTTPDef).ClearInterceptor
@@ -54,16 +58,23 @@ package network
 //@   ensures cleared: len(simpleHTTPSelf.interceptors) == 0
 //@   ensures others: simpleHTTPSelf.clientTransport == old(simpleHTTPSelf.clientTransport) && simpleHTTPSelf.lastTransport == old(simpleHTTPSelf.lastTransport) && simpleHTTPSelf.client == old(simpleHTTPSelf.client)
 
-// RemoveInterceptor: built from the persistent RemoveItem (C04); here only safety, the frame (nothing pre-existing is
-// written) and "the other fields are untouched" are proved - the element-level characterisation is not (see DESIGN.md)
+// RemoveInterceptor: built from the persistent RemoveItem (C04): none of the given interceptors remains, everything that
+// remains was in the old list, and every old interceptor that was not given remains (membership level; that the remaining ones
+// keep their relative order follows from RemoveItem's own contract and is not restated here); nothing pre-existing is written
 //@ func (SimpleHTTPDef).RemoveInterceptor
 //@   prop C18
 //@   modifies simpleHTTPSelf
 //@   requires simpleHTTPSelf != nil
 //@   ensures shrinks: len(simpleHTTPSelf.interceptors) <= old(len(simpleHTTPSelf.interceptors))
+//@   ensures none-of-them-remains: forall(j, 0, len(simpleHTTPSelf.interceptors), !exists(i, 0, len(interceptors), interceptors[i] == simpleHTTPSelf.interceptors[j]))
+//@   ensures only-old-ones: forall(j, 0, len(simpleHTTPSelf.interceptors), exists(k, 0, old(len(simpleHTTPSelf.interceptors)), oldheap(old(simpleHTTPSelf.interceptors)[k]) == simpleHTTPSelf.interceptors[j]))
+//@   ensures others-remain: forall(k, 0, old(len(simpleHTTPSelf.interceptors)), !exists(i, 0, len(interceptors), interceptors[i] == oldheap(old(simpleHTTPSelf.interceptors)[k])) ==> exists(j, 0, len(simpleHTTPSelf.interceptors), simpleHTTPSelf.interceptors[j] == oldheap(old(simpleHTTPSelf.interceptors)[k])))
 //@   ensures others: simpleHTTPSelf.clientTransport == old(simpleHTTPSelf.clientTransport) && simpleHTTPSelf.lastTransport == old(simpleHTTPSelf.lastTransport) && simpleHTTPSelf.client == old(simpleHTTPSelf.client)
 //@ func (SimpleHTTPDef).RemoveInterceptor loop 0
 //@   invariant shrinks: len(simpleHTTPSelf.interceptors) <= old(len(simpleHTTPSelf.interceptors))
+//@   invariant none-of-them-remains: forall(j, 0, len(simpleHTTPSelf.interceptors), !exists(i, 0, _i, interceptors[i] == simpleHTTPSelf.interceptors[j]))
+//@   invariant only-old-ones: forall(j, 0, len(simpleHTTPSelf.interceptors), exists(k, 0, old(len(simpleHTTPSelf.interceptors)), oldheap(old(simpleHTTPSelf.interceptors)[k]) == simpleHTTPSelf.interceptors[j]))
+//@   invariant others-remain: forall(k, 0, old(len(simpleHTTPSelf.interceptors)), !exists(i, 0, _i, interceptors[i] == oldheap(old(simpleHTTPSelf.interceptors)[k])) ==> exists(j, 0, len(simpleHTTPSelf.interceptors), simpleHTTPSelf.interceptors[j] == oldheap(old(simpleHTTPSelf.interceptors)[k])))
 //@   invariant others: simpleHTTPSelf.clientTransport == old(simpleHTTPSelf.clientTransport) && simpleHTTPSelf.lastTransport == old(simpleHTTPSelf.lastTransport) && simpleHTTPSelf.client == old(simpleHTTPSelf.client)
 
 // SetHTTPClient: the SimpleHTTP becomes the client's transport exactly once; the wrapped transport is never the SimpleHTTP itself
